@@ -11,7 +11,7 @@ WORDS = ["a", "b", "foo", "bar", "x1", "Baz", "é", "ß", "的", "q", "Zz", "i",
 INLINE_ATOMS = [
     "*", "**", "***", "_", "__", "~~", "~", "~~~~~", "`", "``", "```", "[", "]", "(", ")", "![", "<", ">", "&",
     "&amp;", "&#35;", "&#x22;", "&lt;", "&copy;", "&ngE;", "&#0;", "&#xD800;", "&nosuch;", "&#99999999;",
-    "\\", "\\*", "\\[", "\\\\", "\\`", "\\<", "\\&", "\\\n", "!", "\"", "'", "--", "---", "...", "(c)", "(tm)", "+-", "|", ":",
+    "\\", "\\*", "\\[", "\\\\", "\\`", "\\<", "\\&", "\\\n", "!", "\"", "'", "--", "---", "...", "(c)", "(tm)", "(Tm)", "(tM)", "(C)", "(R)", "(&#99;)", "+-", "|", ":",
     "http://x.y/z", "<http://a.b>", "<http://a.b/'q'?x=\"1\"&y>", "<a@b.c>", "<b>", "</b>", "<i class=\"x\">", "<!-- c -->",
     "<?php ?>", "<![CDATA[x]]>", "<!X y>", "<a href=\"u\">", "</a>",
     "[r]", "[r][]", "[t][r]", "[R]", "](u)", "](<u v> \"t\")", "](/u 't')", "]( /u (t) )", "[x](javascript:1)", "![i](/s \"t\")",
